@@ -565,7 +565,7 @@ impl<'a> Tr<'a> {
                     if b.ty != Ty::Bool {
                         return Err(unsupported(at, "closure that does not return bool"));
                     }
-                    Ok(Val { s: format!("({} (fun x_ => let '{} := x_ in {}) {})", if name == "any" { "existsb" } else { "forallb" }, p, b.s, recv.s), ty: Ty::Bool })
+                    Ok(Val { s: format!("({} (fun x_ : {} => let '{} := x_ in {}) {})", if name == "any" { "existsb" } else { "forallb" }, self.t.coq_ty(&elem)?, p, b.s, recv.s), ty: Ty::Bool })
                 }
                 ("enumerate", 0) => Ok(Val { s: format!("(Casts.enumerate {})", recv.s), ty: Ty::Slice(Box::new(Ty::Tuple(vec![Ty::int(IntTy::Usize), (*elem).clone()]))) }),
                 ("find", 1) => {
@@ -573,9 +573,17 @@ impl<'a> Tr<'a> {
                     if b.ty != Ty::Bool {
                         return Err(unsupported(at, "closure that does not return bool"));
                     }
-                    Ok(Val { s: format!("(List.find (fun x_ => let '{} := x_ in {}) {})", p, b.s, recv.s), ty: Ty::Option(elem.clone()) })
+                    Ok(Val { s: format!("(List.find (fun x_ : {} => let '{} := x_ in {}) {})", self.t.coq_ty(&elem)?, p, b.s, recv.s), ty: Ty::Option(elem.clone()) })
                 }
                 ("count", 0) => Ok(Val { s: format!("(Z.of_nat (length {}))", recv.s), ty: Ty::int(IntTy::Usize) }),
+                ("filter_map", 1) => {
+                    let (p, b) = self.closure1(args[0], &elem, env, None)?;
+                    let bt = match &b.ty {
+                        Ty::Option(t) => (**t).clone(),
+                        t => return Err(unsupported(at, &format!("`filter_map` closure returning {} (not Option)", t.show()))),
+                    };
+                    Ok(Val { s: format!("(flat_map (fun x_ : {} => let '{} := x_ in match {} with Some y_ => [y_] | None => [] end) {})", self.t.coq_ty(&elem)?, p, b.s, recv.s), ty: Ty::Slice(Box::new(bt)) })
+                }
                 // `str::split(char)` / `strip_suffix(char)` on the list of chars
                 ("split", 1) if *elem == Ty::Int(Some(IntTy::U32)) => {
                     let c = self.pure(args[0], env, Some(&elem))?;
